@@ -55,7 +55,10 @@ impl AppSpec {
             vehicle_restrictions: None,
             termination: json!({"type": "iterations", "limit": 1000000}),
             input_plugins: vec![],
-            output_plugins: vec![json!({"type": "summary"}), json!({"type": "traversal", "route": "edge_id", "geometry_input_file": "$DIR/geometries.txt"})],
+            output_plugins: vec![
+                json!({"type": "summary"}),
+                json!({"type": "traversal", "route": "edge_id", "geometry_input_file": "$DIR/geometries.txt"}),
+            ],
             parallelism: 2,
             orientation: "vertex".into(),
             persistence: "persist_response_in_memory".into(),
@@ -73,7 +76,14 @@ impl AppSpec {
         let (sx, sy) = self.net.coord(s);
         let (dx, dy) = self.net.coord(d);
         // a bend unique to the edge so that every stored geometry is distinguishable
-        vec![(sx, sy), ((sx + dx) / 2.0 + 0.001 * (e as f32 + 1.0), (sy + dy) / 2.0 - 0.0005 * (e as f32 + 1.0)), (dx, dy)]
+        vec![
+            (sx, sy),
+            (
+                (sx + dx) / 2.0 + 0.001 * (e as f32 + 1.0),
+                (sy + dy) / 2.0 - 0.0005 * (e as f32 + 1.0),
+            ),
+            (dx, dy),
+        ]
     }
     pub fn geometry(&self, e: usize) -> Vec<(f32, f32)> {
         match &self.geometries {
@@ -86,7 +96,8 @@ impl AppSpec {
         if gzip {
             let f = std::fs::File::create(path).map_err(|e| e.to_string())?;
             let mut enc = flate2::write::GzEncoder::new(f, flate2::Compression::default());
-            enc.write_all(content.as_bytes()).map_err(|e| e.to_string())?;
+            enc.write_all(content.as_bytes())
+                .map_err(|e| e.to_string())?;
             enc.finish().map_err(|e| e.to_string())?;
             Ok(())
         } else {
@@ -112,7 +123,16 @@ impl AppSpec {
         Self::write(&dir.join(format!("edges{}", ext)), &e, self.gzip_graph)?;
         let m = self.net.m();
         let geoms: String = (0..m)
-            .map(|e| format!("LINESTRING ({})\n", self.geometry(e).iter().map(|(x, y)| format!("{} {}", x, y)).collect::<Vec<_>>().join(", ")))
+            .map(|e| {
+                format!(
+                    "LINESTRING ({})\n",
+                    self.geometry(e)
+                        .iter()
+                        .map(|(x, y)| format!("{} {}", x, y))
+                        .collect::<Vec<_>>()
+                        .join(", ")
+                )
+            })
             .collect();
         Self::write(&dir.join("geometries.txt"), &geoms, false)?;
         let uuids: String = match &self.uuids {
@@ -137,7 +157,11 @@ impl AppSpec {
         }
         let mut access = json!({"type": "no_access_model"});
         if let Some(t) = &self.turn {
-            let mut h = String::from(if t.no_departure_column { "arrival_heading\n" } else { "arrival_heading,departure_heading\n" });
+            let mut h = String::from(if t.no_departure_column {
+                "arrival_heading\n"
+            } else {
+                "arrival_heading,departure_heading\n"
+            });
             for (e, (a, dep)) in t.headings.iter().enumerate() {
                 if t.no_departure_column {
                     h.push_str(&format!("{}\n", a));
@@ -170,7 +194,8 @@ impl AppSpec {
             Self::write(&dir.join("turn_restrictions.csv"), &s, false)?;
         }
         if let Some(vr) = &self.vehicle_restrictions {
-            let mut s = String::from("edge_id,restriction_name,restriction_value,restriction_unit\n");
+            let mut s =
+                String::from("edge_id,restriction_name,restriction_value,restriction_unit\n");
             for (e, n, val, u) in vr {
                 s.push_str(&format!("{},{},{},{}\n", e, n, val, u));
             }
@@ -203,7 +228,9 @@ impl AppSpec {
             "termination": self.termination,
             "plugin": {"input_plugins": self.input_plugins, "output_plugins": self.output_plugins}
         });
-        let text = serde_json::to_string(&cfg).map_err(|e| e.to_string())?.replace("$DIR", &d);
+        let text = serde_json::to_string(&cfg)
+            .map_err(|e| e.to_string())?
+            .replace("$DIR", &d);
         serde_json::from_str(&text).map_err(|e| e.to_string())
     }
 
@@ -217,7 +244,12 @@ pub fn build_app_from_json(cfg: &Value, dir: &Path) -> Result<CompassApp, String
     let text = serde_json::to_string(cfg).map_err(|e| e.to_string())?;
     let conf_path = dir.join("config.json");
     std::fs::write(&conf_path, &text).map_err(|e| e.to_string())?;
-    let config = compass_app_ops::read_config_from_string(text, config::FileFormat::Json, conf_path.to_str().unwrap_or("").to_string()).map_err(|e| e.to_string())?;
+    let config = compass_app_ops::read_config_from_string(
+        text,
+        config::FileFormat::Json,
+        conf_path.to_str().unwrap_or("").to_string(),
+    )
+    .map_err(|e| e.to_string())?;
     let builder = <CompassAppBuilder as Default>::default();
     CompassApp::try_from((&config, &builder)).map_err(|e| e.to_string())
 }
@@ -230,8 +262,15 @@ impl Scratch {
     pub fn new(tag: &str) -> Scratch {
         use std::sync::atomic::{AtomicU64, Ordering};
         static N: AtomicU64 = AtomicU64::new(0);
-        let base = std::env::var("VERIF_WORK").map(PathBuf::from).unwrap_or_else(|_| crate::engine::verif_root().join(".work"));
-        let path = base.join(format!("{}-{}-{}", tag, std::process::id(), N.fetch_add(1, Ordering::SeqCst)));
+        let base = std::env::var("VERIF_WORK")
+            .map(PathBuf::from)
+            .unwrap_or_else(|_| crate::engine::verif_root().join(".work"));
+        let path = base.join(format!(
+            "{}-{}-{}",
+            tag,
+            std::process::id(),
+            N.fetch_add(1, Ordering::SeqCst)
+        ));
         let _ = std::fs::create_dir_all(&path);
         Scratch { path }
     }
